@@ -266,3 +266,17 @@ Proof.
 Qed.
 
 End Isolation.
+
+Definition example_state : mstate :=
+  (None, (mkW [] [(100, [([97], 5)])], [mkS [CReq 100 None; CBare [97]] [] false; mkS [CDef [97] 6] [] false])).
+
+Example agree_example : agree [(1, 1); (2, 2)] 0 1 1 example_state example_state.
+Proof.
+  unfold agree.
+  refine (conj eq_refl (conj eq_refl (conj eq_refl (conj eq_refl (conj eq_refl (conj (fun _ _ => eq_refl) _)))))).
+  intros st9 H. cbn in H. injection H as <-. split; cbn.
+  - constructor.
+    + cbn. intros [H1|[H1|[]]]; discriminate.
+    + constructor; [exact I | constructor].
+  - constructor.
+Qed.
